@@ -387,8 +387,10 @@ def run():
                 fields[i] = ListV(items) if nme == "fg" else Lazy("cap_" + nme, "?")
             clo = Agg(span, fields)
             same_len = z3.BitVec("m0.file_info.len.0", 64) == z3.BitVec("m1.file_info.len.0", 64)
-            extra = {r"^<dyn .*Fn.* as (std::ops::)?Fn(Mut|Once)?<.*>>::call(_mut|_once)?$|^<dyn .*Fn.*>::call$": oblig.invoke_closure_summary(prog, hclo)}
-            sub = oblig.engine(prog, unroll=3, inline=lambda c, t: bool(re.search(INL, t.name)) or tinl(c, t), extra=extra)
+            import listsum as _ls
+            extra = {r"^<dyn .*Fn.* as (std::ops::)?Fn(Mut|Once)?<.*>>::call(_mut|_once)?$|^<dyn .*Fn.*>::call$": oblig.invoke_closure_summary(prog, hclo),
+                     r"^<.* as (std::iter::)?Iterator>::(skip|take)$": _ls.s_iter_skip_take}
+            sub = oblig.engine(prog, unroll=6, inline=lambda c, t: bool(re.search(INL, t.name)) or tinl(c, t), extra=extra)
             mem = dict(p.mem)
             qs = sub.run(task, args=[clo], pre=list(p.pc) + [same_len], mem=mem)
             seng.encoded.update(sub.encoded)
